@@ -158,17 +158,20 @@ def dispatchCmp : Dispatch := fun W op args =>
     pure (chk m s)
   | "f.basecmp", [sa, ea, pa, p10, sb, eb] => do
     let sg ← parseInt sa; let ex ← parseDecNat ea; let _ ← parseDecNat pa; let pc ← parseDecNat p10
-    -- `with_base::<10>` of a binary float with a small non-negative exponent is the exact integer
-    let x := (FRepr.mk (sg * (2 : Int) ^ ex) 0).normalize 10
+    -- `with_base::<10>` of a binary float with a small non-negative exponent: the exact integer
+    -- `sg·2^ex`, rounded to the new precision `pc` by `repr_round` (fix 02e179b; rounding mode Zero of
+    -- the harness type = truncation toward zero), then normalised
+    let v := sg * (2 : Int) ^ ex
+    let dg := exactDigits 10 v
+    let x := if pc ≠ 0 ∧ dg > pc then (FRepr.mk (v.tdiv ((10 : Int) ^ (dg - pc))) (dg - pc : Nat)).normalize 10
+             else (FRepr.mk v 0).normalize 10
     let (y, py) ← parseFloat 10 sb eb "d:0"
     let c := reprCmpSameBase 10 (exactDigits 10) x y (some (pc, py))
     let c' := reprCmpSameBase 10 (exactDigits 10) y x (some (py, pc))
     let m := "ok " ++ boolStr (fbigEq x y) ++ " " ++ ordStr c ++ " " ++ ordStr c'
     let sc := specFCmp 10 x y
     let s := "ok " ++ boolStr (sc == .eq) ++ " " ++ ordStr sc ++ " " ++ ordStr (specFCmp 10 y x)
-    -- outside the hypothesis of the float comparison theorem (`digits ≤ precision`) the mirrored
-    -- shortcut may be wrong: print what the property requires (recorded finding)
-    if pc ≠ 0 ∧ exactDigits 10 x.signif > pc then pure s else pure (chk m s)
+    pure (chk m s)
   | "q.cmp", [n1, d1, n2, d2] => do
     let a : QRepr := ⟨← parseInt n1, ← parseNat d1⟩
     let b : QRepr := ⟨← parseInt n2, ← parseNat d2⟩
